@@ -175,9 +175,22 @@ def shape_ok(term, stage):
         return False
     return walk(term, False)
 
+STATS = {'seen': set(), 'nontrivial': 0, 'samples': []}
+
+def note(p, want):
+    k = str(p)
+    if k in STATS['seen']:
+        return
+    STATS['seen'].add(k)
+    if not isinstance(p, MetaVar) and p != bot() and p != top():
+        STATS['nontrivial'] += 1
+        if len(STATS['samples']) < 6 and len(k) < 160:
+            STATS['samples'].append([k, {True: 'tautology', False: 'unsatisfiable', None: 'contingent'}[want]])
+
 def check_one(t, p, stages):
     tb = table(p)
     want = True if all(tb) else (False if not any(tb) else None)
+    note(p, want)
     try:
         r = t.prove_tautology(p)
     except RecursionError:
@@ -259,10 +272,10 @@ def _c09(seed, max_size, n_random, depth):
     # conjunctions of k clauses that are ALL trivially true (the branch of start_resolution_algorithm that folds per-clause proofs), in non-palindromic order
     lem = lambda v: _or(v, neg(v))
     triv = [lem(MetaVar(0)), lem(MetaVar(1)), lem(MetaVar(2)), _or(neg(MetaVar(0)), MetaVar(0)), _or(MetaVar(3), _or(neg(MetaVar(3)), MetaVar(1))), lem(MetaVar(3))]
-    for k in range(1, 7):
+    for k in range(1, 6):
         c = triv[k - 1]
         for x in reversed(triv[:k - 1]): c = _and(x, c)
-        for p in ((c, neg(c)) if k <= 3 else (neg(c),)):          # the clauses of ~~c are the k trivial clauses: prove_tautology(~c) takes the all-trivial branch
+        for p in ((c, neg(c)) if k <= 2 else (neg(c),)):          # the clauses of ~~c are the k trivial clauses: prove_tautology(~c) takes the all-trivial branch
             r = check_one(t, p, False)
             if r: return ('fail', r, str(p), done)
             done += 1
@@ -272,18 +285,30 @@ def _c09(seed, max_size, n_random, depth):
         r = check_one(t, p, i % 4 == 0)
         if r: return ('fail', r, str(p), done)
         done += 1
-    return ('ok', done)
+    return ('ok', done, STATS['nontrivial'], STATS['samples'])
 """
 
 
 def tauto_bounded(root, tier, seed):
     from vc import replay as rp
-    ms, nr, dp = (3, 150, 3) if tier == 'quick' else (4, 1000, 4)
+    ms, nr, dp = (3, 60, 3) if tier == 'quick' else (4, 1000, 4)
     jobs = [{'expr': f'_c09({seed}, {ms}, {nr}, {dp})'}]
     real = rp.run_real(jobs, prelude=TAUTO_PRELUDE, root=root, timeout=5000)[0]
     if not real['ok']:
         return {'expr': jobs[0]['expr'], 'real': real, 'failed_clause': 'bounded driver raised: ' + str(real.get('exc'))}, 0, (ms, nr, dp)
     d = rp.repr_to_data(real['repr'])
     if d[0] == 'tuple' and d[1] == 'ok':
+        LAST.update({'evaluations': d[2], 'distinct_nontrivial': d[3], 'samples': _plain(d[4])})
         return None, d[2], (ms, nr, dp)
     return {'expr': jobs[0]['expr'], 'real': real, 'failed_clause': str(d[2]), 'pattern': str(d[3])}, d[4], (ms, nr, dp)
+
+
+LAST = {}
+
+
+def _plain(x):
+    if isinstance(x, tuple) and x and x[0] in ('list', 'tuple'):
+        return [_plain(y) for y in x[1:]]
+    if isinstance(x, tuple) and x and x[0] == 'dict':
+        return {str(_plain(k)): _plain(v) for k, v in x[1:]}
+    return x
